@@ -25,7 +25,7 @@ CLAIMED["C13"] = ("Proof (runtime part): encoding a Result yields 0 exactly for 
     "non-zero and the slot untouched; decoding reads the slot only when the code is 0; none of the shipped error types encodes to 0; a non-zero OS "
     "code survives unchanged; round trip through a fresh slot never reads uninitialised memory. Model tied to cglue/src/result.rs by differential "
     "execution over boundary and random i32 values with droppable payloads; slot-write detection + drop counters as monitor. The generated "
-    "out-parameter plumbing of #[int_result] traits is covered by the generator checks.",
+    "out-parameter plumbing of #[int_result] traits: parameter/writer/decoder of REAL expansions vs the generator model (theorem int_plumbing) and compiled end-to-end calls.",
     "5.C13", "Trusted: Coq kernel; hand-written model tied by correspondence; extraction; harness; std::io::Error.",
     "Coq algebraic laws + model/impl differential execution")
 CLAIMED["C14"] = ("Proof: for every input the buffer is the input up to its first NUL plus exactly one NUL, the NUL scan stays inside the allocation and "
@@ -101,6 +101,11 @@ CLAIMED["C08"] = ("Proof (any number of optional traits with distinct identifier
     "generated for; that function validates exactly the requested vtables; success <-> requested subset of enabled; With-variants share the base layout. Tie: REAL group "
     "expansions + REAL cast macros abstracted per subset; monitor: ALL 8x7x5x3 cells in compiled programs with post-cast calls, upcast and destructor counts.", "5.C08", _GEN_NOTE,
     "Coq proof (sorted-permutation uniqueness, peekable merge) + structural translation validation + exhaustive compiled runs")
+CLAIMED["C03"] = ("Proof: every vtable entry generated for a well-formed trait has FFI-safe parameter and return types (each Rust shape is mapped to its C wrapper: no slice, str, "
+    "non-NPO Option, Result or tuple reaches a signature); every shipped wrapper type carries a C repr (over declarations regenerated from source). The predicate is validated "
+    "against rustc's own improper_ctypes lints on every run by re-compiling REAL expansions (accept side: every argument/return shape x receiver x int mode; reject side: "
+    "CResult with an error type without C repr); extern \"C\" and #[repr(C)] are read off the real expansions.", "5.C03", _GEN_NOTE,
+    "Coq proof over a generator model + rustc lint as differential oracle on re-compiled real expansions")
 PENDING = "not yet built in this round (planned, see DESIGN.md section 5); not claimed until its theorem, tie and monitor exist"
 NA = {}
 
